@@ -9,6 +9,7 @@
 #include "garbage_collection.h"
 #include "interior_node.h"
 #include "thread_info_table.h"
+#include "verif_hook.h"
 #include <atomic>
 #include <thread>
 
@@ -17,9 +18,11 @@ namespace yakushima {
 class epoch_manager {
 public:
     static void epoch_thread() {
+        YK_VP(k_thread_start, nullptr, 1, 0);
         for (;;) {
             sleepMs(YAKUSHIMA_EPOCH_TIME);
             for (;;) {
+                YK_VP(k_epoch_load, nullptr, 1, 0);
                 Epoch cur_epoch = epoch_management::get_epoch();
                 bool verify{true};
                 for (auto&& elem : thread_info_table::get_thread_info_table()) {
@@ -36,9 +39,11 @@ public:
                  * When the calculation process in this loop is executed,
                  * there is no way to escape from the loop, so the following line is required.
                  */
+                YK_VP(k_stop_load, &kEpochThreadEnd, 1, 0);
                 if (kEpochThreadEnd.load(std::memory_order_acquire)) break;
             }
             epoch_management::epoch_inc();
+            YK_VP(k_epoch_inc, nullptr, 0, 0);
 
             /**
              * attention : type of epoch is uint64_t
@@ -56,19 +61,25 @@ public:
             if (min_epoch != UINT64_MAX) {
                 garbage_collection::set_gc_epoch(min_epoch - 1);
             } else {
+                YK_VP(k_epoch_load, nullptr, 2, 0);
                 garbage_collection::set_gc_epoch(epoch_management::get_epoch() -
                                                  1);
             }
+            YK_VP(k_stop_load, &kEpochThreadEnd, 1, 1);
             if (kEpochThreadEnd.load(std::memory_order_acquire)) { break; }
         }
+        YK_VP(k_thread_exit, nullptr, 1, 0);
     }
 
     static void gc_thread() {
+        YK_VP(k_thread_start, nullptr, 2, 0);
         for (;;) {
             sleepMs(YAKUSHIMA_EPOCH_TIME);
             thread_info_table::gc();
+            YK_VP(k_stop_load, &kGCThreadEnd, 2, 0);
             if (kGCThreadEnd.load(std::memory_order_acquire)) { break; }
         }
+        YK_VP(k_thread_exit, nullptr, 2, 0);
     }
 
     static void invoke_epoch_thread() {
@@ -83,10 +94,12 @@ public:
 
     static void set_epoch_thread_end() {
         kEpochThreadEnd.store(true, std::memory_order_release);
+        YK_VP(k_stop_store, &kEpochThreadEnd, 1, 0);
     }
 
     static void set_gc_thread_end() {
         kGCThreadEnd.store(true, std::memory_order_release);
+        YK_VP(k_stop_store, &kGCThreadEnd, 2, 0);
     }
 
 private:
